@@ -7,6 +7,7 @@ package main
 import (
 	"context"
 	"fmt"
+	"os"
 	"runtime"
 	"sort"
 	"strings"
@@ -85,12 +86,17 @@ func (t *opTable) has(prefix string) (string, bool) {
 // ---------------------------------------------------------------------------
 // recording ErrorReporter
 
+var debugReports = os.Getenv("RPCFAULT_DEBUG") != ""
+
 type reporter struct {
 	mu   sync.Mutex
 	errs []string
 }
 
 func (r *reporter) ReportError(err error) {
+	if debugReports {
+		fmt.Fprintf(os.Stderr, "REPORT %v\n", err)
+	}
 	r.mu.Lock()
 	if len(r.errs) < 64 {
 		r.errs = append(r.errs, err.Error())
@@ -554,6 +560,18 @@ func runWatched(rec *common.Recorder, idx uint64, prop string, get func() *bench
 		rec.Inconclusive(fmt.Sprintf("watchdog: case %d still had runnable goroutines after 120s", idx))
 		return caseInconclusive
 	}
+	if b != nil {
+		b.vmu.Lock()
+		nv := b.violations
+		b.vmu.Unlock()
+		if nv > 0 {
+			// The case already produced a violation (e.g. a panic inside
+			// Close); the wedge that follows is its consequence.
+			rec.Count("deadlocks_after_violation", 1)
+			rec.Logf("case %d: quiescent after an earlier violation; pending %v", idx, b.ops.names())
+			return caseDeadlock
+		}
+	}
 	sig, what := classifyDeadlock(b, rep, prop)
 	var input interface{}
 	if b != nil {
@@ -562,6 +580,41 @@ func runWatched(rec *common.Recorder, idx uint64, prop string, get func() *bench
 	detail := "pending: " + strings.Join(pendingNames(b), ", ") + "\n\n" + strings.Join(rep.Blocked, "\n\n")
 	rec.Violate(sig, what, idx, detail, input)
 	return caseDeadlock
+}
+
+// coreWaitCycle recognises the wait-for cycle inside package capnp (not rpc)
+// between a resolving promise and a call made through the promised client.
+func coreWaitCycle(rep *common.DeadlockReport) bool {
+	fulfil, call := false, false
+	for _, st := range rep.Blocked {
+		top := ""
+		for _, l := range strings.Split(st, "\n")[1:] {
+			if !strings.HasPrefix(l, "\t") {
+				top = l
+				break
+			}
+		}
+		if strings.Contains(top, "capnp/v3.(*ClientPromise).Fulfill") || strings.Contains(top, "capnp/v3.(*Promise).resolve") {
+			fulfil = true
+		}
+		if strings.Contains(top, "capnp/v3.(*Answer).PipelineSend") || strings.Contains(top, "capnp/v3.(*Answer).PipelineRecv") {
+			call = true
+		}
+	}
+	return fulfil && call
+}
+
+// scenarioClass groups the scenarios by direction of the traffic.
+func scenarioClass(s string) string {
+	switch s {
+	case "inboot", "incall", "inpipeline":
+		return "incoming"
+	case "closebusy":
+		return "both-directions"
+	case "":
+		return "none"
+	}
+	return "outgoing"
 }
 
 func pendingNames(b *bench) []string {
@@ -578,6 +631,9 @@ func classifyDeadlock(b *bench, rep *common.DeadlockReport, prop string) (sig, w
 	names := b.ops.names()
 	what = fmt.Sprintf("system quiescent with pending operations %v (scenario %s, action %s, link %s); parked: %s",
 		names, b.scenario, b.action, b.lk.Name(), rep.Signature)
+	if coreWaitCycle(rep) {
+		return prop + "/core-promise-wait-cycle", "capnp core: Promise.resolve/ClientPromise.Fulfill waits for a call on the promised client that itself waits for the resolution (DESIGN.md §4 #12, property C11); pending " + strings.Join(names, ",")
+	}
 	if n, ok := b.ops.has("await:goroutines"); ok {
 		_ = n
 		frame := "?"
@@ -591,12 +647,16 @@ func classifyDeadlock(b *bench, rep *common.DeadlockReport, prop string) (sig, w
 		}
 		return prop + "/goroutine-leak/" + frame, "goroutines of package rpc still alive (and parked for good) after Close returned: " + frame
 	}
-	if _, ok := b.ops.has("await:h2"); ok {
-		st, _ := b.lastSnap.Load().(rpc.VerifConnState)
+	if _, ok := b.ops.has("await:"); ok {
+		// Decide with a fresh look: the system is quiescent, so nobody can
+		// legitimately be holding either lock.
+		st := b.snapshot()
 		if !st.Locked {
-			return prop + "/mutex-leaked/" + b.scenario + "/" + b.action, "Conn.mu is held although no Conn method is executing (" + b.curStep() + ")"
+			return prop + "/mutex-leaked/" + scenarioClass(b.scenario) + "/" + b.action, "Conn.mu is held although no Conn method is executing (step " + b.curStep() + ")"
 		}
-		return prop + "/sender-lock-leaked/" + b.scenario + "/" + b.action, "sender lock is held although no Conn method is executing (" + b.curStep() + ")"
+		if st.SenderLockHeld {
+			return prop + "/sender-lock-leaked/" + scenarioClass(b.scenario) + "/" + b.action, "sender lock is held although no Conn method is executing (step " + b.curStep() + ")"
+		}
 	}
 	if n, ok := b.ops.has("close:"); ok {
 		return prop + "/close-blocks/" + b.action, "Conn.Close never returns (" + n + ")"
